@@ -735,7 +735,10 @@ func onlyOrigins(os []Origin, pred func(Origin) bool) bool {
 }
 
 // derivesFrom reports whether value v may derive from value src (src appears in the backward slice).
-func derivesFrom(v, src ssa.Value) bool {
+func derivesFrom(v, src ssa.Value) bool { return derivesFromAvoiding(v, src, nil) }
+
+// derivesFromAvoiding is derivesFrom that does not look through values for which avoid holds.
+func derivesFromAvoiding(v, src ssa.Value, avoid func(ssa.Value) bool) bool {
 	seen := map[ssa.Value]bool{}
 	var walk func(v ssa.Value, d int) bool
 	walk = func(v ssa.Value, d int) bool {
@@ -744,6 +747,9 @@ func derivesFrom(v, src ssa.Value) bool {
 		}
 		if v == src {
 			return true
+		}
+		if avoid != nil && avoid(v) {
+			return false
 		}
 		seen[v] = true
 		switch x := v.(type) {
